@@ -552,8 +552,13 @@ def run(ctx, only_cases=None):
                     alt[flags] = predict_all(tcs, tos, flags)
                 _p2, _m2, sets2 = alt[flags][ci]
                 if all(obs[k] in sets2[k] for k in range(len(obs))):
-                    keys = ks
-                    break
+                    # several pinned variants may fit one observation: an explanation made only of recorded
+                    # findings wins (it is no evidence of anything new), otherwise the smallest one
+                    if all(k in ctx.known for k in ks):
+                        keys = ks
+                        break
+                    if keys is None:
+                        keys = ks
             if keys is not None and diff:
                 for k in keys:
                     explained.setdefault(k, 0)
